@@ -256,6 +256,25 @@ class Models(object):
             return [(p, acc if isinstance(acc, Raise) else ex.new_list(p, acc)) for p, acc in states]
         if obj is dict and not args and not kw:
             return [(path, ex.new_dict(path, []))]
+        if obj is zip and args:
+            cols = [ex.iter_concrete(path, a) for a in args]
+            n = min(len(c) for c in cols)
+            return [(path, VTuple([VTuple([c[i] for c in cols]) for i in range(n)]))]
+        if obj is dict and len(args) == 1 and not kw and not isinstance(args[0], (VDictLit, VMap)):
+            # dict(iterable of pairs): inserted one by one (later equal keys overwrite: decided per path)
+            pairs = ex.iter_concrete(path, args[0])
+            d = ex.new_dict(path, [])
+            states = [path]
+            for pr in pairs:
+                kv = ex.iter_concrete(path, pr)
+                if len(kv) != 2:
+                    raise Unsupported('dict() of non-pairs')
+                nxt = []
+                for p_ in states:
+                    for out_ in ex.setitem(p_, d, kv[0], kv[1], None, None):
+                        nxt.append(out_[0])
+                states = nxt
+            return [(p_, d) for p_ in states]
         if obj is set and not args:
             return [(path, VSet(z3.K(z3.StringSort(), z3.BoolVal(False)), z3.IntVal(0)))]
         if obj is getattr:
